@@ -72,6 +72,11 @@ class C15(Check):
                     cells = [(pos, op) for pos in sorted(base) for op in sorted(base[pos]) if op != "_"]
                     for c in cells[:2]:
                         devs.append((("scale", c[0], c[1], 0.5),))
+                    # a lone qualifying reference read (below min_coverage) at a site every copy varies at
+                    for c in cells:
+                        if "_" not in base[c[0]]:
+                            devs.append((("set", c[0], "_", 1),))
+                            break
                     for dv in devs:
                         for ti, th in enumerate(THRESHOLDS):
                             if self.tier == "quick" and ti and (n + ti) % 3:
